@@ -45,13 +45,15 @@ Proof. intros <-. reflexivity. Qed.
 
 Lemma mstep_proj tbl s e i : mbufs (mstep tbl s e) i = urun (mbufs s i) (mproj tbl i s e).
 Proof.
-  destruct e as [h n effs foc'|h n nav|j|j|j t c|]; cbn [mstep mbufs mproj]; try reflexivity.
+  destruct e as [h n effs foc'|h n nav|j|j|j t c| |j t c f']; cbn [mstep mbufs mproj]; try reflexivity.
   - rewrite fx_fold_proj, urun_app. f_equal. unfold upd. rewrite (Z.eqb_sym i (mfoc s)).
     destruct (mfoc s =? i) eqn:E; [|reflexivity].
     apply Z.eqb_eq in E. rewrite dispatch_ops_run, (foc_kst_at s i E). reflexivity.
   - unfold upd. rewrite (Z.eqb_sym i (mfoc s)).
     destruct (mfoc s =? i) eqn:E; [|reflexivity].
     apply Z.eqb_eq in E. rewrite urun_app, dispatch_ops_run, (foc_kst_at s i E). reflexivity.
+  - unfold upd. rewrite (Z.eqb_sym i j). destruct (j =? i) eqn:E; [|reflexivity].
+    apply Z.eqb_eq in E. subst j. reflexivity.
   - unfold upd. rewrite (Z.eqb_sym i j). destruct (j =? i) eqn:E; [|reflexivity].
     apply Z.eqb_eq in E. subst j. reflexivity.
   - unfold upd. rewrite (Z.eqb_sym i j). destruct (j =? i) eqn:E; [|reflexivity].
@@ -88,7 +90,7 @@ Qed.
 
 Lemma mproj_ok tbl s e i : mwf s -> mev_ok e -> Forall op_ok (mproj tbl i s e).
 Proof.
-  intros Hwf Hok. destruct e as [h n effs foc'|h n nav|j|j|j t c|]; cbn [mproj mev_ok] in *.
+  intros Hwf Hok. destruct e as [h n effs foc'|h n nav|j|j|j t c| |j t c f']; cbn [mproj mev_ok] in *.
   - destruct Hok as [_ Hfx]. apply Forall_app. split; [|apply fx_proj_ok; exact Hfx].
     destruct (mfoc s =? i); [apply dispatch_ops_ok; apply Hwf|constructor].
   - destruct (mfoc s =? i) eqn:E; [|constructor].
@@ -99,6 +101,7 @@ Proof.
   - destruct (j =? i); [constructor; [exact I|constructor]|constructor].
   - destruct (j =? i); [constructor; [exact Hok|constructor]|constructor].
   - constructor.
+  - destruct (j =? i); [constructor; [exact Hok|constructor]|constructor].
 Qed.
 
 Lemma mwf_step tbl s e : mwf s -> mev_ok e -> mwf (mstep tbl s e).
@@ -201,7 +204,7 @@ Proof.
   intros Hno Hwf Hinv. destruct g as [s P]. cbn [fst snd] in *.
   unfold mhist_inv, mgstep; cbn [fst snd]. intros i.
   pose proof (Hinv i) as Hi. cbn [fst snd] in Hi.
-  destruct e as [h n effs foc'|h n nav|j|j|j t c|]; cbn [mstep mbufs mhist_step].
+  destruct e as [h n effs foc'|h n nav|j|j|j t c| |j t c f']; cbn [mstep mbufs mhist_step].
   - (* a dispatch *)
     destruct (existsb (resets i) effs) eqn:Er.
     + destruct (fx_fold_reset effs (upd (mbufs s) (mfoc s) (kbody tbl (foc_kst s) h n)) i Er) as [A B].
@@ -225,6 +228,8 @@ Proof.
     + apply Z.eqb_eq in E. subst i. cbn [set_state ustack rstack]. apply skip_inv. exact Hi.
     + apply skip_inv. exact Hi.
   - exact Hi.
+  - unfold upd. rewrite (Z.eqb_sym i j). destruct (j =? i) eqn:E; [|exact Hi].
+    cbn [ustep ustack rstack]. split; [constructor|intros e []].
 Qed.
 
 Lemma mgrun_fst tbl evs : forall g, fst (fold_left (mgstep tbl) evs g) = mrun tbl (fst g) evs.
@@ -296,7 +301,7 @@ Proof.
   induction evs as [|e evs IH]; intros s Hc Ha Hp Hf Hall; [split; reflexivity|].
   inversion Hall as [|? ? He Hrest]; subst.
   cbn [mrun fold_left]. change (fold_left (mstep tbl) evs ?x) with (mrun tbl x evs).
-  destruct e as [h' n effs foc'|h' n nav|j|j|j t c|]; cbn [in_mrun] in He; try contradiction.
+  destruct e as [h' n effs foc'|h' n nav|j|j|j t c| |j t c f']; cbn [in_mrun] in He; try contradiction.
   - destruct He as (-> & -> & Hnr).
     destruct (IH (mstep tbl s (MKey h n effs (mfoc s))) Hc Ha eq_refl eq_refl Hrest) as (I1 & I2).
     rewrite I1, I2. cbn [mstep mbufs].
@@ -412,7 +417,7 @@ Lemma reach_mstep tbl s e :
   mwf s -> disciplined tbl s e -> minv tbl s ->
   (forall i, ops_safe (mbufs s i) (mproj tbl i s e)) /\ minv tbl (mstep tbl s e).
 Proof.
-  intros Hwf Hd Hinv. destruct e as [h n effs foc'|h n nav|j|j|j t c|]; cbn [disciplined] in Hd.
+  intros Hwf Hd Hinv. destruct e as [h n effs foc'|h n nav|j|j|j t c| |j t c f']; cbn [disciplined] in Hd.
   - destruct Hd as (Ha & Hc & H2 & Hfx). split.
     + intros i. cbn [mproj]. apply ops_safe_app.
       * destruct (mfoc s =? i); [apply dispatch_ops_safe|exact I].
@@ -443,6 +448,9 @@ Proof.
       destruct (mfoc s =? j) eqn:E; [|apply (Hinv h0 Hp H20)].
       apply Z.eqb_eq in E. subst j. cbn [set_state ustack]. apply (Hinv h0 Hp H20).
   - split; [intros i; exact I|exact Hinv].
+  - split.
+    + intros i. cbn [mproj]. destruct (j =? i); cbn [ops_safe op_safe]; auto.
+    + intros h0 Hp. cbn [mstep mprev] in Hp. discriminate.
 Qed.
 
 Lemma reach_mrun tbl evs : forall s,
